@@ -195,6 +195,8 @@ dt_get_mon(struct dt_d_s that)
 		return that.bizda.m;
 	case DT_YWD:
 		return __ywd_get_mon(that.ywd);
+	case DT_YD:
+		return __yd_get_md(that.yd).m;
 	case DT_UMMULQURA:
 		return that.ummulqura.m;
 	default:
@@ -217,6 +219,8 @@ dt_get_wday(struct dt_d_s that)
 		return __bizda_get_wday(that.bizda);
 	case DT_YWD:
 		return __ywd_get_wday(that.ywd);
+	case DT_YD:
+		return __yd_get_wday(that.yd);
 	case DT_UMMULQURA:
 		;
 	default:
@@ -238,6 +242,10 @@ dt_get_mday(struct dt_d_s that)
 		return __daisy_to_ymd(that.daisy).d;
 	case DT_BIZDA:
 		return __bizda_get_mday(that.bizda);;
+	case DT_YWD:
+		return __ywd_get_md(that.ywd).d;
+	case DT_YD:
+		return __yd_get_md(that.yd).d;
 	case DT_YMD:
 		/* to shut gcc up */
 	case DT_UMMULQURA:
@@ -290,6 +298,8 @@ dt_get_wcnt_mon(struct dt_d_s that)
 		/* to shut gcc up */
 	case DT_YWD:
 		return __ywd_get_wcnt_mon(that.ywd);
+	case DT_YD:
+		return __ymd_get_count(__yd_to_ymd(that.yd));
 	default:
 	case DT_DUNK:
 		return 0;
@@ -369,6 +379,8 @@ dt_get_yday(struct dt_d_s that)
 		return __bizda_get_yday(that.bizda, __get_bizda_param(that));
 	case DT_YWD:
 		return __ywd_get_yday(that.ywd);
+	case DT_YD:
+		return that.yd.d;
 	case DT_UMMULQURA:
 		;
 	default:
@@ -440,26 +452,15 @@ dt_get_bday_q(struct dt_d_s that, dt_bizda_param_t bp)
 DEFUN int
 dt_get_quarter(struct dt_d_s that)
 {
-	int m;
+	int m = dt_get_mon(that);
 
-	switch (that.typ) {
-	case DT_YMD:
-		m = that.ymd.m;
-		break;
-	case DT_YMCW:
-		m = that.ymcw.m;
-		break;
-	case DT_BIZDA:
-		m = that.bizda.m;
-		break;
-	default:
-	case DT_DUNK:
+	if (UNLIKELY(m <= 0)) {
 		return 0;
 	}
 	return (m - 1) / 3 + 1;
 }
 
-
+
 /* converters */
 DEFUN dt_daisy_t
 dt_conv_to_daisy(struct dt_d_s that)
